@@ -82,4 +82,5 @@ pub mod c17;
 #[cfg(feature = "c18")]
 pub mod c18;
 pub mod c19;
+#[cfg(feature = "c20")]
 pub mod gen_c20;
